@@ -23,7 +23,7 @@ EXPLANATION = "direct exploration of the real solver; every execution is an exec
 
 
 def budget_s(tier):
-    return 300 if tier == "quick" else 7200
+    return 600 if tier == "quick" else 7200
 
 
 LEVELS_QUICK = [
@@ -170,6 +170,10 @@ def replay(case):
     return res["violations"]
 
 
+def _same(a, b):
+    return all(x == y or (x != x and y != y) for x, y in zip(a, b))
+
+
 def judge(nl, pal, res, keys):
     case = {"netlist": nl, "palette": pal}
     keys_len = len(keys)
@@ -200,6 +204,14 @@ def judge(nl, pal, res, keys):
             V[br[3]] = complex(sol.get_voltage(br[3]))
             I[br[3]] = complex(sol.get_current(br[3]))
             P[br[3]] = complex(sol.get_power(br[3]))
+        # the same solution object asked again in the opposite order, and a second object asked powers-first (three questions)
+        again = {}
+        for br in reversed(nl["branches"]):
+            again[br[3]] = (complex(sol.get_power(br[3])), complex(sol.get_current(br[3])), complex(sol.get_voltage(br[3])))
+        phi_again = {nd: (complex(sol.get_potential(nd)),) for nd in reversed(nodes)}
+        sol2 = nodal_analysis_bias_point_solver(adapt.network(nl))
+        last, first = nl["branches"][-1][3], nl["branches"][0][3]
+        fresh = (complex(sol2.get_power(last)), complex(sol2.get_current(first)), complex(sol2.get_potential(nodes[-1])))
     except Exception as e:  # a valid network never fails to solve
         bump(res["hits"], "never_fails")
         add_violation(res, "never_fails", case, "a solution", "%s: %s" % (type(e).__name__, e),
@@ -219,6 +231,19 @@ def judge(nl, pal, res, keys):
     if nontrivial and all(abs(v) == 0 for v in phi.values()) and any(abs(v) > 1e-6 * s_phi for v in phi_ref.values()):
         add_violation(res, "never_fails", case, "non-zero solution", "all-zero fallback vector",
                       "solver silently fell back to zeros", kind="zero_fallback")
+        return
+    bump(res["hits"], "query_order")
+    for br in nl["branches"]:
+        first_ans = (P[br[3]], I[br[3]], V[br[3]])
+        if not _same(again[br[3]], first_ans):
+            add_violation(res, "query_order", case, first_ans, again[br[3]], "power/current/voltage of %s depend on the order in which results are asked for" % br[3])
+            return
+    for nd in nodes:
+        if not _same(phi_again[nd], (phi[nd],)):
+            add_violation(res, "query_order", case, phi[nd], phi_again[nd], "potential of %s depends on the order in which results are asked for" % nd)
+            return
+    if not _same(fresh, (P[last], I[first], phi[nodes[-1]])):
+        add_violation(res, "query_order", case, (P[last], I[first], phi[nodes[-1]]), fresh, "a second solution object asked powers-first answers differently")
         return
     # kvl_ref_zero
     bump(res["hits"], "kvl_ref_zero")
